@@ -695,3 +695,85 @@ CERR = Unit('C18', 'taurex.model.simplemodel:SimpleForwardModel.compute_error', 
                 'iterator, in order, the model is evaluated once on the requested grid AFTER the sample was taken and every accumulator is '
                 'updated once with the current profile / spectrum and the weight of THAT sample; each stored standard deviation is the root of '
                 'the parallel variance of its own accumulator (OnlineVariance by its contracts)')
+
+
+# ------------------------------------------------------------------ Optimizer.sample_parameters: a sample row travels with ITS weight
+def _sp_params(c):
+    N, D = c.choice('N'), 2
+    picks = c.choice('picks')
+    return dict(self=ObjSpec('Optimizer', _sigma_fraction=0.5, g_samples=c.array('samples', (N, D)), g_weights=c.array('weights', (N,))), solution=0)
+
+
+def _h_rii(ex, st, args, kwargs, node):
+    """random_int_iter(total, fraction): ASSUMED to yield distinct indices in [0, total); here: the enumerated picks"""
+    c = ex.c
+    st.trace.append(('ev', ('random_int_iter', args[0], args[1])))
+    return st.alloc(c, PyList(list(c.fixed['picks'])))
+
+
+def _sp_yields(c, v0, v, k, val):
+    fx = c.fixed if c.mode != 'conc' else c.values
+    x = fx['picks'][k] if k < len(fx['picks']) else None
+    if x is None:
+        return {'no_more_than_the_drawn_indices': False}
+    row, w = val
+    S, W = v0.self.g_samples, v0.self.g_weights
+    return {'row_of_the_drawn_index': c.And(c.Eq(row[0], S[x, 0]), c.Eq(row[1], S[x, 1])),
+            'weight_of_the_same_index': c.Eq(w, W[x] + 1e-300) if c.mode != 'conc' else abs(w - W[x]) <= 1e-12}
+
+
+def _sp_post(c, v0, v1, r):
+    fx = c.fixed if c.mode != 'conc' else c.values
+    d = {'one_pair_per_drawn_index': len(r) == len(fx['picks'])}
+    if c.mode != 'conc':
+        calls = [e for e in (c.trace or []) if e[0] == 'random_int_iter']
+        d['draws_from_all_samples_with_the_configured_fraction'] = len(calls) == 1 and z3.simplify(to_int_(calls[0][1]) - fx['N']).eq(z3.IntVal(0)) \
+            and calls[0][2] == 0.5
+    return d
+
+
+def to_int_(x):
+    return x if is_sym(x) else z3.IntVal(int(x))
+
+
+def _sp_native(c, p):
+    import numpy as np
+    import taurex.util.util as uu
+    from taurex.optimizer.optimizer import Optimizer
+    N, picks = c.values['N'], c.values['picks']
+    S, W = np.array(p['self']['g_samples'], dtype=float).reshape(N, 2), np.array(p['self']['g_weights'], dtype=float)
+
+    class _O(Optimizer):
+        def get_samples(self, k):
+            return S
+
+        def get_weights(self, k):
+            return W
+    o = _O.__new__(_O)
+    o._sigma_fraction = 0.5
+    saved = uu.random_int_iter
+    uu.random_int_iter = lambda total, fraction: iter(list(picks))
+    try:
+        vals = [(np.array(row, dtype=float), float(w)) for row, w in o.sample_parameters(0)]
+    finally:
+        uu.random_int_iter = saved
+    return GenTrace(vals, [p] * len(vals)), p
+
+
+_SP_CASES = [dict(N=N, picks=pk) for N, pk in ((1, ()), (1, (0,)), (2, (1,)), (3, (2, 0)), (4, (3, 1)), (4, (0, 2, 1)))]
+
+
+def _sp_gen(rng):
+    d = dict(rng.choice(_SP_CASES))
+    N = d['N']
+    d.update(samples=[[rng.uniform(-1, 1), rng.uniform(-1, 1)] for _ in range(N)], weights=[rng.uniform(0, 1) for _ in range(N)])
+    return d
+
+
+SPAR = Unit(['C18', 'C09'], OPT + 'sample_parameters', _sp_params, yields=_sp_yields, post=_sp_post, cases=_SP_CASES, bounds=[{}],
+            abstract={'call:get_samples': lambda ex, st, args, kwargs, node: st.get(args[0]).attrs['g_samples'],
+                      'call:get_weights': lambda ex, st, args, kwargs, node: st.get(args[0]).attrs['g_weights'],
+                      'call:random_int_iter': _h_rii},
+            native=_sp_native, gen=_sp_gen, short='Optimizer.sample_parameters',
+            doc='the posterior draws handed to the spread computation: for every drawn index the sample row and the weight OF THAT SAME '
+                'index (plus 1e-300), drawn from all samples with the configured fraction (random_int_iter abstract: enumerated picks)')
